@@ -22,7 +22,12 @@ RULE = ("random orientation sets (0..N rows; fractional / integral / negative / 
         "formats with the real code; foreign/malformed text, STAR and tbl files through the real parsers; index and boolean "
         "selections; extraction windows over all small target/box extents. distinct = distinct (family, configuration, "
         "content-hash) cases; 0-row tables are counted once per configuration, 1-axis/1-row window cases with the peak in "
-        "the interior of a target larger than the box (nothing clipped) are not counted")
+        "the interior of a target larger than the box (nothing clipped) are not counted. Widened: the arrays handed to the "
+        "constructor vary in memory layout / dtype / container; formats are also selected by file name (any case, names that only "
+        "contain an extension) and by every documented name; one object is written repeatedly in one process (sessions); text "
+        "files with permuted named columns; selections with every integer dtype, strided and read-only index arrays, tables of "
+        "300 / 40000 / 70000 rows, copy(); windows with targets up to 70000 and boxes up to 40000, 4-D, extents handed over as "
+        "tuple / list / ndarray, and the two-value return form")
 ASSUMPTIONS = [
     "printing a float32/float64 with str() and parsing the token back (numpy astype / float()) is an identity on the value: "
     "trusted numpy, checked on the real code by the bit-identity clauses; the model works on tokens",
@@ -33,10 +38,18 @@ ASSUMPTIONS = [
     "window clauses: 'non-empty ordering inside target/box' is evaluated for picks located inside the target "
     "(0 <= floor(t), ceil(t) <= extent); 'a box entirely inside the target is full-size' for picks with a margin of "
     "ceil(e/2) on both sides (holds for any centring / rounding convention)",
+    "file names are ASCII (str.lower() is modelled on ASCII)",
+    "a text file whose translation / angle columns carry the writer's names in another order describes the same set "
+    "(header-driven column order); score and detail stay the last two columns",
 ]
 TRUSTED = ["C11: numpy float formatting/parsing, float32->int truncation and scipy Euler conversions are exercised, not modelled"]
 
-MAT_TOL = 1e-4
+# Error model for 'the angles read back describe the same rotations' (max |R' - R| over matrix elements):
+# an element of a rotation matrix is 1-Lipschitz in each Euler angle (radians).  The file carries the xyx angles as
+# float64 tokens (error ~1e-15); the reader rounds them to float32 (|angle| <= 180 deg: half an ulp = 2^-17 deg = 1.33e-7
+# rad each), converts in float64 and the constructor rounds the three zyx angles to float32 again (1.33e-7 rad each):
+# <= 6 * 1.33e-7 = 8e-7.  Measured on 240 000 rotations (uniform, wide, both gimbal locks): 3.4e-7.  Bound used: 1e-5.
+MAT_TOL = 1e-5
 
 # ------------------------------------------------------------------------------------------ helpers
 
@@ -103,10 +116,15 @@ SPECIAL_ANGLES = [0.0, 90.0, -90.0, 180.0, -180.0, 360.0, 45.0, 1e-3, 89.99999, 
 
 def gen_angles(rng, n, r):
     out = np.zeros((n, r), dtype=np.float32)
-    mode = rng.choice(["uniform", "special", "mixed", "wide", "gimbal"])
+    mode = rng.choice(["uniform", "special", "mixed", "wide", "gimbal", "xlock"])
     for i in range(n):
         for j in range(r):
             m = mode if mode != "mixed" else rng.choice(["uniform", "special", "wide"])
+            if m == "xlock":
+                # rotations about x only: the middle angle of the file's xyx convention is 0 or 180 (its gimbal lock)
+                v = float(rng.choice([0.0, 180.0, -180.0, -0.0, 360.0])) if j < r - 1 else rng.uniform(-180, 180)
+                out[i, j] = v
+                continue
             if m == "uniform":
                 v = rng.uniform(-180, 180)
             elif m == "wide":
@@ -120,7 +138,7 @@ def gen_angles(rng, n, r):
 
 
 def gen_translations(rng, n, d):
-    mode = rng.choice(["frac", "int", "neg", "large", "tiny", "mixed"])
+    mode = rng.choice(["frac", "int", "neg", "large", "tiny", "mixed", "huge", "zeros"])
     scale = float(rng.choice([5, 64, 500, 4096]))
     a = rng.random((n, d)) * scale
     if mode == "int":
@@ -133,6 +151,10 @@ def gen_translations(rng, n, d):
         a = a * 1e-6
     elif mode == "mixed":
         a = np.where(rng.random((n, d)) < 0.5, np.floor(a), a)
+    elif mode == "huge":                      # printed in exponent notation
+        a = a * np.float32(rng.choice([1e12, 1e25, -1e18]))
+    elif mode == "zeros":
+        a = np.where(rng.random((n, d)) < 0.5, 0.0, -0.0) * np.where(rng.random((n, d)) < 0.7, 1.0, a)
     return a.astype(np.float32), str(mode)
 
 
@@ -163,26 +185,90 @@ def gen_details(rng, n, exotic):
 def gen_orient(rng, n, d, r, exotic=False):
     t, tm = gen_translations(rng, n, d)
     a, am = gen_angles(rng, n, r)
-    return {"t": t, "a": a, "s": gen_scores(rng, n, exotic), "d": gen_details(rng, n, exotic), "tmode": tm, "amode": am}
+    if exotic and n and rng.random() < 0.1:   # text only: non-finite coordinates print and parse as well
+        t[int(rng.integers(0, n)), int(rng.integers(0, d))] = np.float32(rng.choice([np.nan, np.inf, -np.inf]))
+    return {"t": t, "a": a, "s": gen_scores(rng, n, exotic), "d": gen_details(rng, n, exotic), "tmode": tm, "amode": am,
+            "layout": str(rng.choice(LAYOUTS))}
+
+
+LAYOUTS = ["c", "c", "c", "f", "f64", "offset", "rev", "readonly", "list", "int"]
+
+
+def _lay(a, layout):
+    """the same float32 values in another memory layout / dtype / container (all legal constructor arguments)"""
+    a = np.asarray(a)
+    n = a.shape[0]
+    if layout == "f":
+        return np.asfortranarray(a)
+    if layout == "f64":
+        return a.astype(np.float64)
+    if layout == "offset":                    # every other row of a wider array: non-contiguous, non-zero offset
+        if a.ndim == 2:
+            big = np.full((2 * n + 1, a.shape[1] + 2), 7.0, dtype=a.dtype)
+            big[1::2, 1:-1] = a
+            return big[1::2, 1:-1]
+        big = np.full(2 * n + 1, 7.0, dtype=a.dtype)
+        big[1::2] = a
+        return big[1::2]
+    if layout == "rev":                       # negative strides
+        return np.ascontiguousarray(a[::-1])[::-1]
+    if layout == "readonly":
+        b = a.copy()
+        b.setflags(write=False)
+        return b
+    if layout == "list":                      # (an empty nested list has no second axis: not a legal argument)
+        return a.tolist() if n else a
+    if layout == "int":                       # integral values as an integer array (the class docstring does that)
+        if a.size and np.all(np.isfinite(a)) and np.all(a == np.floor(a)) and np.all(np.abs(a) < 2 ** 24) \
+                and not np.any(np.signbit(a) & (a == 0)):
+            return a.astype(np.int64)
+        return a
+    return a
 
 
 def make(o):
     from tme import Orientations
-    return Orientations(translations=o["t"], rotations=o["a"], scores=o["s"], details=o["d"])
+    lay = o.get("layout", "c")
+    return Orientations(translations=_lay(o["t"], lay), rotations=_lay(o["a"], lay), scores=_lay(o["s"], lay),
+                        details=_lay(o["d"], lay))
+
+
+def synthetic(n, d, r, k=0):
+    """large tables described by a formula (keeps recorded inputs small); the score is the row number"""
+    i = np.arange(n, dtype=np.int64)
+    t = np.stack([((i * 7 + j * 3 + k) % 1000) + 0.25 * j for j in range(d)], axis=1).astype(np.float32).reshape(n, d)
+    a = np.stack([((i * 37 + j * 11 + k) % 360) - 180.0 for j in range(r)], axis=1).astype(np.float32).reshape(n, r)
+    return {"t": t, "a": a, "s": i.astype(np.float32), "d": ((i % 5) - 1).astype(np.float32), "tmode": "synthetic",
+            "amode": "synthetic", "syn": [int(n), int(d), int(r), int(k)]}
 
 
 def orient_json(o):
-    return {"translations": o["t"].astype(float).tolist(), "rotations": o["a"].astype(float).tolist(),
+    if "syn" in o:
+        return {"synthetic": list(o["syn"]), "layout": o.get("layout", "c")}
+    return {"layout": o.get("layout", "c"),"translations": o["t"].astype(float).tolist(), "rotations": o["a"].astype(float).tolist(),
             "scores": [repr(float(x)) for x in o["s"]], "details": [repr(float(x)) for x in o["d"]],
             "shape_t": list(o["t"].shape), "shape_r": list(o["a"].shape)}
 
 
 def orient_from_json(j):
+    if "synthetic" in j:
+        o = synthetic(*j["synthetic"])
+        o["layout"] = j.get("layout", "c")
+        return o
+    return {**_orient_from_json(j), "layout": j.get("layout", "c")}
+
+
+def _orient_from_json(j):
     t = np.array(j["translations"], dtype=np.float32).reshape(j["shape_t"])
     a = np.array(j["rotations"], dtype=np.float32).reshape(j["shape_r"])
     s = np.array([float(x) for x in j["scores"]], dtype=np.float32)
     d = np.array([float(x) for x in j["details"]], dtype=np.float32)
     return {"t": t, "a": a, "s": s, "d": d, "tmode": "replay", "amode": "replay"}
+
+
+def _row(o, i):
+    """the one-row orientation set made of row i (for shrinking a failing table)"""
+    return {k: (v[i:i + 1] if isinstance(v, np.ndarray) else v) for k, v in o.items() if k != "syn"}
 
 
 def n_rows(ctx, rng):
@@ -249,7 +335,7 @@ def check_text(ctx, o, tag="gen", shrink=True):
         ok &= ctx.spec("text: details bit-identical", inp, _bits(back.details) == _bits(o["d"]), key="text:details" + zr, size=n)
     if not ok and shrink and n > 1:
         for i in range(min(n, 12)):
-            sub = {k: (v[i:i + 1] if isinstance(v, np.ndarray) else v) for k, v in o.items()}
+            sub = _row(o, i)
             if not check_text(ctx, sub, tag, shrink=False):
                 break
     ctx.count(f"text:d={d},r={r}")
@@ -333,6 +419,7 @@ def conv_tokens(o):
 STAR_CFGS = [
     {}, {}, {"name": "tomo.mrc"}, {"name": "LIST"}, {"name": "t_1.mrc", "ctf_image": "wedge.mrc"},
     {"ctf_image": "ctf.mrc", "sampling_rate": 2.5, "subtomogram_size": 32}, {"name": "LIST", "sampling_rate": 13.33, "subtomogram_size": 7},
+    {"name": "data_tomo_1.mrc", "sampling_rate": 2, "subtomogram_size": 48.0}, {"name": "_loop#1.mrc", "ctf_image": "#ctf"},
 ]
 
 
@@ -424,9 +511,14 @@ def check_star(ctx, o, cfg, tag="gen", shrink=True):
         e = _mat_err(_mats(back.rotations), _mats(o["a"]))
         ok &= ctx.spec("star: angles describe the same rotations", inp, e <= MAT_TOL, {"max_matrix_error": e},
                        key="star:rotations" + nm + zr, size=n)
+        # the writer separates fields by tabs: naming that delimiter when reading gives the same table
+        back2, err2 = _quiet(Orientations.from_file, path, None, delimiter="\t")
+        ok &= ctx.spec("star: reading back with delimiter='\\t' gives the same table", inp,
+                       err2 is None and _bits(back2.translations) == _bits(back.translations)
+                       and _bits(back2.rotations) == _bits(back.rotations), err2, key="star:tab-delimiter" + zr, size=n)
     if not ok and shrink and n > 1:
         for i in range(min(n, 12)):
-            sub = {k: (v[i:i + 1] if isinstance(v, np.ndarray) else v) for k, v in o.items()}
+            sub = _row(o, i)
             if not check_star(ctx, sub, cfg, tag, shrink=False):
                 break
     ctx.count("star:cfg=" + ",".join(sorted(cfg)) if cfg else "star:cfg=default")
@@ -487,11 +579,13 @@ def check_foreign_star(ctx, text, kind, delimiter=None):
 
 # ------------------------------------------------------------------------------------------ Dynamo
 
-def check_tbl(ctx, o, sampling=None, tag="gen", shrink=True):
+def check_tbl(ctx, o, sampling=None, tag="gen", shrink=True, extra=None):
+    """extra: further documented keyword arguments of the writer (name_prefix, subtomogram_size): they do not change the table"""
     from tme import Orientations
     n = o["t"].shape[0]
     kw = {} if sampling is None else {"sampling_rate": sampling}
-    inp = {"family": "dynamo", "orient": orient_json(o), "sampling_rate": sampling}
+    kw.update(extra or {})
+    inp = {"family": "dynamo", "orient": orient_json(o), "sampling_rate": sampling, "extra": extra}
     path = _file(ctx, "c11.tbl")
     obj = make(o)
     _, err = _quiet(obj.to_file, path, "dynamo", **kw)
@@ -528,8 +622,8 @@ def check_tbl(ctx, o, sampling=None, tag="gen", shrink=True):
                        key="dynamo:rotations" + zr, size=n)
     if not ok and shrink and n > 1:
         for i in range(min(n, 12)):
-            sub = {k: (v[i:i + 1] if isinstance(v, np.ndarray) else v) for k, v in o.items()}
-            if not check_tbl(ctx, sub, sampling, tag, shrink=False):
+            sub = _row(o, i)
+            if not check_tbl(ctx, sub, sampling, tag, shrink=False, extra=extra):
                 break
     ctx.count("dynamo:rows=" + ("0" if n == 0 else "1" if n == 1 else "2-7" if n < 8 else "8+"))
     ctx.count("dynamo:angles=" + o["amode"])
@@ -575,12 +669,23 @@ def check_subset(ctx, o, sel, kind, container="array"):
     """sel: list of ints (kind='int') or list of bools (kind='bool'); container: how the selection is handed over
     (numpy array, python list, python tuple — all are legal selections)"""
     n = o["t"].shape[0]
-    if container != "array" and len(sel) == 0:
+    if container in ("list", "tuple") and len(sel) == 0:
         container = "array"      # an empty python list carries no dtype (numpy makes it float): not a typed selection
+    dt = np.int64
+    if container.startswith("array:"):
+        dt = np.dtype(container.split(":")[1])
+        if kind == "bool" or any(not (np.iinfo(dt).min <= int(x) <= np.iinfo(dt).max) for x in sel):
+            container, dt = "array", np.int64
     inp = {"family": "subset", "orient": orient_json(o), "kind": kind, "container": container,
            "sel": [bool(x) if kind == "bool" else int(x) for x in sel]}
     obj = make(o)
-    idx = np.array(sel, dtype=bool if kind == "bool" else np.int64)
+    idx = np.array(sel, dtype=bool if kind == "bool" else dt)
+    if container == "view":                   # strided view with an offset
+        big = np.zeros(2 * len(sel) + 1, dtype=idx.dtype)
+        big[1::2] = idx
+        idx = big[1::2]
+    elif container == "readonly":
+        idx.setflags(write=False)
     if container == "list":
         idx = [bool(x) if kind == "bool" else int(x) for x in sel]
     elif container == "tuple":
@@ -612,12 +717,34 @@ def check_subset(ctx, o, sel, kind, container="array"):
             ctx.spec("subset: exactly the selected rows, in the order selected", inp, got == exp, key="subset:rows", size=n + len(sel))
             # a copy, not a view
             if len(want):
-                before = _bits(obj.translations)
-                sub.translations[...] = -12345.0
-                ctx.spec("subset: result does not alias the source", inp, _bits(obj.translations) == before, key="subset:alias", size=n + len(sel))
+                before = rows_of(obj)
+                for arr in (sub.translations, sub.rotations, sub.scores, sub.details):
+                    arr[...] = -12345.0
+                ctx.spec("subset: result does not alias the source", inp, rows_of(obj) == before, key="subset:alias", size=n + len(sel))
         if len(want) >= 2 or (len(want) == 1 and n > 1):
             ctx.distinct(("subset", kind, n, tuple(want)))
     ctx.count(f"subset:{kind}:" + ("valid" if valid else "invalid"))
+
+
+def check_copy(ctx, o):
+    """copy() = the selection of every row"""
+    n = o["t"].shape[0]
+    inp = {"family": "copy", "orient": orient_json(o)}
+    obj = make(o)
+    rows_of = lambda ob: [_bits(ob.translations), _bits(ob.rotations), _bits(ob.scores), _bits(ob.details)]
+    want = [_bits(o["t"]), _bits(o["a"]), _bits(o["s"]), _bits(o["d"])]
+    c, err = _quiet(obj.copy)
+    if err:
+        return ctx.spec("subset: copy() succeeds", inp, False, err, key="subset:copy:raises", size=n)
+    ok = ctx.spec("subset: copy() returns every row, in order", inp, rows_of(c) == want and
+                  c.translations.shape == o["t"].shape and c.rotations.shape == o["a"].shape, key="subset:copy:rows", size=n)
+    if n:
+        for arr in (c.translations, c.rotations, c.scores, c.details):
+            arr[...] = -12345.0
+        ok &= ctx.spec("subset: copy() does not alias the source", inp, rows_of(obj) == want, key="subset:copy:alias", size=n)
+        ctx.distinct(("copy", n, _crc(json_key(want[0][:4]))))
+    ctx.count("copy")
+    return ok
 
 
 # ------------------------------------------------------------------------------------------ windows
@@ -626,15 +753,22 @@ def slices_to_ints(sl):
     return [[[int(s.start), int(s.stop)] for s in tup] for tup in sl]
 
 
-def check_windows(ctx, o, target, box, tag="gen"):
+WINDOW_CALLS = {"tuple": tuple, "list": list, "int64": lambda x: np.array(x, dtype=np.int64),
+                "int32": lambda x: np.array(x, dtype=np.int32), "npscalars": lambda x: tuple(np.int64(v) for v in x)}
+
+
+def check_windows(ctx, o, target, box, tag="gen", call="tuple"):
+    """call: how the extents are handed over (tuple / list / integer ndarray / numpy scalars)"""
     n, d = o["t"].shape
-    inp = {"family": "windows", "orient": orient_json(o), "target": list(target), "box": list(box)}
+    inp = {"family": "windows", "orient": orient_json(o), "target": list(target), "box": list(box), "call": call}
+    conv = WINDOW_CALLS[call]
+    ctx.count("window:call=" + call)
     obj = make(o)
     peaks = [[int(math.trunc(float(v))) for v in row] for row in o["t"]]
     size = n * d + sum(target) + sum(box)
     res = {}
     for drop in (False, True):
-        out, err = _quiet(obj.get_extraction_slices, tuple(target), tuple(box), drop, True)
+        out, err = _quiet(obj.get_extraction_slices, conv(target), conv(box), drop, True)
         m = ctx.driver.call("c11.extraction", target=list(target), box=list(box), peaks=peaks, drop=drop)
         if err:
             ctx.agree("extraction(outcome)", {**inp, "drop": drop}, "err:" + err, "ok")
@@ -648,6 +782,13 @@ def check_windows(ctx, o, target, box, tag="gen"):
         res[drop] = (sub, slices_to_ints(cand), slices_to_ints(obs))
     sub0, cand0, obs0 = res[False]
     ok = True
+    # the form without the orientations (return_orientations left out; drop_out_of_box left out = False)
+    for args, drop in (((), False), ((False,), False), ((True,), True)):
+        out2, err = _quiet(obj.get_extraction_slices, conv(target), conv(box), *args)
+        good = err is None and isinstance(out2, tuple) and len(out2) == 2
+        good = good and slices_to_ints(out2[0]) == res[drop][1] and slices_to_ints(out2[1]) == res[drop][2]
+        ok &= ctx.spec("windows: the two-value form returns the same destination and source windows", {**inp, "args": list(args)},
+                       good, err, key="window:two-value-form", size=size)
     ok &= ctx.spec("windows: one window per pick", inp, len(cand0) == n and len(obs0) == n and sub0.translations.shape[0] == n,
                    key="window:count", size=size)
     if not ok:
@@ -692,17 +833,24 @@ def check_windows(ctx, o, target, box, tag="gen"):
     return ok
 
 
-def gen_window_case(rng, ctx, wide=False):
-    d = int(rng.choice([2, 3, 3, 1]))
+def gen_window_case(rng, ctx, wide=False, scale="small"):
+    """scale: small (extents < 14 / 40), big (tomogram-sized: targets 200..5000, boxes up to 700), huge (targets
+    30000..70000, boxes 100..40000: beyond 8- and 16-bit integers)"""
+    d = int(rng.choice([2, 3, 3, 1, 4]))
     hi = 14 if not wide else 40
-    target = [int(x) for x in rng.integers(1, hi, size=d)]
+    lo_t, hi_t, hi_b = 1, hi, hi + 4
+    if scale == "big":
+        lo_t, hi_t, hi_b = 200, 5000, 700
+    elif scale == "huge":
+        lo_t, hi_t, hi_b = 30000, 70001, 40000
+    target = [int(x) for x in rng.integers(lo_t, hi_t, size=d)]
     k = rng.random()
-    if k < 0.25:
+    if k < 0.25 and scale != "huge":
         box = [int(rng.integers(t, t + 6)) for t in target]          # box at least as large as the target
     elif k < 0.3:
         box = [int(rng.integers(0, 3)) for _ in target]
     else:
-        box = [int(x) for x in rng.integers(1, hi + 4, size=d)]
+        box = [int(x) for x in rng.integers(1 if scale != "huge" else 100, hi_b, size=d)]
     if rng.random() < 0.3:
         box = [box[0]] * d
     n = int(rng.choice([0, 1, 2, 4, 8]))
@@ -719,9 +867,197 @@ def gen_window_case(rng, ctx, wide=False):
                 v = rng.uniform(-T - 3, 2 * T + 3)
             t[i, ax] = v
     a, am = gen_angles(rng, n, d)
-    o = {"t": t, "a": a, "s": gen_scores(rng, n, False), "d": gen_details(rng, n, False), "tmode": str(mode), "amode": am}
+    o = {"t": t, "a": a, "s": gen_scores(rng, n, False), "d": gen_details(rng, n, False), "tmode": str(mode), "amode": am,
+         "layout": str(rng.choice(LAYOUTS))}
     return o, target, box
 
+
+
+# ------------------------------------------------------------------------------------------ text: permuted named columns
+
+def check_text_permuted(ctx, o, perm):
+    """a text file with the writer's column names in another order (perm over the d+r translation / angle columns;
+    score and detail stay last): header-driven column order must give the same orientation set"""
+    from tme import Orientations
+    n, d = o["t"].shape
+    r = o["a"].shape[1]
+    inp = {"family": "text-permuted", "orient": orient_json(o), "perm": [int(x) for x in perm]}
+    names = ctx.driver.call("c11.textHeader", d=d, r=r)
+    cols = names[:d + r]
+    lines = ["\t".join([cols[k] for k in perm] + names[d + r:])]
+    for i in range(n):
+        toks = [str(x) for x in o["t"][i]] + [str(x) for x in o["a"][i]]
+        lines.append("\t".join([toks[k] for k in perm] + [str(o["s"][i]), str(o["d"][i])]))
+    path = _file(ctx, "c11p.txt")
+    with open(path, "w", encoding="utf-8", newline="") as fh:
+        fh.write("\n".join(lines) + "\n")
+    content = _read(path)
+    raw, err = _quiet(Orientations._from_text, path)
+    ctx.agree("text.read(permuted)", inp, ("err:" + err) if err else canon_table(raw), ctx.driver.call("c11.readText", text=content))
+    back, err = _quiet(Orientations.from_file, path, "text")
+    if err:
+        ok = ctx.spec("text: a file with permuted named columns is read", inp, False, err, key="text:permuted-columns:raises", size=n)
+    else:
+        ok = ctx.spec("text: columns are identified by their header names (permuted columns give the same set)", inp,
+                      back.translations.shape == o["t"].shape and _bits(back.translations) == _bits(o["t"])
+                      and back.rotations.shape == o["a"].shape and _bits(back.rotations) == _bits(o["a"])
+                      and _bits(back.scores) == _bits(o["s"]) and _bits(back.details) == _bits(o["d"]),
+                      key="text:permuted-columns", size=n)
+    if not ok and n > 1:
+        check_text_permuted(ctx, _row(o, 0), perm)
+    ctx.count("textperm:" + ("identity" if list(perm) == sorted(perm) else "permuted"))
+    if list(perm) != sorted(perm):
+        ctx.distinct(("textperm", d, r, tuple(int(x) for x in perm), _crc(content)))
+    return ok
+
+
+# ------------------------------------------------------------------------------------------ format selection
+
+FILE_STEMS = ["picks", "a.star", "a.tbl", "run.star.v2", "Star", "tbl", "x.", "data_star", "tomo.txt", "UPPER", "a.tbl.star",
+              "a.star.tbl", "s", ".star", "my picks"]
+FILE_EXTS = ["", ".star", ".tbl", ".STAR", ".TBL", ".Star", ".tBl", ".txt", ".tsv", ".star.txt", ".tbl.bak", ".start", ".stbl",
+             "star", "tbl", ".sta", ".tb", ".star ", ".STAR.TBL", ".tbl.STAR", "_star", ".text", ".dynamo", ".relion"]
+FORMAT_NAMES = ["text", "relion", "dynamo"]                # the names both docstrings document
+OTHER_NAMES = ["tbl", "star", "Text", "RELION", "", "dynamo ", "txt"]
+
+
+def _sniff(content, n):
+    """which writer produced this file"""
+    if content.startswith("# version 30001\ndata_optics"):
+        return "relion"
+    if content.startswith("z\ty\tx\teuler_z"):
+        return "text"
+    if (n == 0 and content == "") or (n and len(content.split("\n")[0].split(" ")) == 38):
+        return "dynamo"
+    return "unknown"
+
+
+def _same_set(o, back, fmt):
+    """the clauses of the property for one read-back (3 translation / 3 angle columns)"""
+    if back.translations.shape != o["t"].shape or _bits(back.translations) != _bits(o["t"]):
+        return "translations"
+    if fmt == "text":
+        if back.rotations.shape != o["a"].shape or _bits(back.rotations) != _bits(o["a"]):
+            return "angles"
+        if _bits(back.scores) != _bits(o["s"]) or _bits(back.details) != _bits(o["d"]):
+            return "scores/details"
+    else:
+        e = _mat_err(_mats(back.rotations), _mats(o["a"]))
+        if not e <= MAT_TOL:
+            return f"rotations (matrix error {e})"
+    return None
+
+
+def check_dispatch(ctx, o, fname, wfmt, rfmt):
+    """to_file(fname, wfmt) then from_file(fname, rfmt); None = inferred from the file name"""
+    from tme import Orientations
+    n = o["t"].shape[0]
+    inp = {"family": "dispatch", "orient": orient_json(o), "fname": fname, "write_format": wfmt, "read_format": rfmt}
+    path = _file(ctx, fname)
+    if os.path.exists(path):
+        os.remove(path)
+    obj = make(o)
+    mw = ctx.driver.call("c11.dispatch", fname=fname, fmt=wfmt, side="write")
+    mr = ctx.driver.call("c11.dispatch", fname=fname, fmt=rfmt, side="read")
+    kw = {"name": "tomo.mrc"} if mw == "relion" else {}
+    _, werr = _quiet(obj.to_file, path, wfmt, **kw)
+    wrote = None if werr else _sniff(_read(path), n)
+    ctx.agree("dispatch.write(format)", inp, ("err:" + werr) if werr else wrote, mw)
+    ctx.count("dispatch:write=" + str(wfmt) + "->" + str(wrote if not werr else werr))
+    documented = (wfmt is None or wfmt in FORMAT_NAMES) and (rfmt is None or rfmt in FORMAT_NAMES)
+    same_request = wfmt == rfmt
+    if werr:
+        if wfmt is None or wfmt in FORMAT_NAMES:
+            ctx.spec("formats: writing with a documented format (or an inferred one) succeeds", inp, False, werr,
+                     key=f"dispatch:write-raises:{wfmt}", size=n)
+        return False
+    back, rerr = _quiet(Orientations.from_file, path, rfmt)
+    if isinstance(mr, str) and mr.startswith("err:"):
+        ctx.agree("dispatch.read(format)", inp, "err:" + str(rerr), mr)
+    else:
+        # from_file(path, request) is the reader the model names, applied to that file (whatever the file holds)
+        reader = {"text": Orientations._from_text, "relion": Orientations._from_relion_star, "dynamo": Orientations._from_tbl}[mr]
+        ref, e2 = _quiet(lambda: Orientations(*reader(path)[:4]))
+        allbits = lambda ob: [_bits(ob.translations), _bits(ob.rotations), _bits(ob.scores), _bits(ob.details)]
+        ctx.agree("dispatch.read(format)", inp, ("err:" + rerr) if rerr else allbits(back), ("err:" + e2) if e2 else allbits(ref))
+    ctx.count("dispatch:read=" + str(rfmt) + ("->" + rerr if rerr else "->ok"))
+    ok = True
+    if documented and same_request:
+        # the same request on both sides (same file name, same documented format name, or both left out) round-trips
+        which = "inferred" if wfmt is None else "name=" + wfmt
+        if rerr:
+            ok = ctx.spec("formats: a table written with a format request is read back with the same request", inp, False, rerr,
+                          key=f"dispatch:read-raises:{which}", size=n)
+        else:
+            bad = _same_set(o, back, wrote)
+            ok = ctx.spec("formats: a table written with a format request is read back with the same request", inp, bad is None, bad,
+                          key=f"dispatch:roundtrip:{which}", size=n)
+        ctx.distinct(("dispatch", fname, wfmt, rfmt, n))
+    return ok
+
+
+# ------------------------------------------------------------------------------------------ sessions (one object, many writes)
+
+def check_session(ctx, o, o2, steps):
+    """steps: list of [who (0/1), format, cfg] executed on two long-lived objects that share the file paths"""
+    from tme import Orientations
+    inp = {"family": "session", "orient": orient_json(o), "orient2": orient_json(o2), "steps": steps}
+    objs = [make(o), make(o2)]
+    src = [o, o2]
+    before = [[_bits(x.translations), _bits(x.rotations), _bits(x.scores), _bits(x.details)] for x in objs]
+    first = {}
+    ok = True
+    size = o["t"].shape[0] + o2["t"].shape[0] + len(steps)
+    ext = {"text": "txt", "relion": "star", "dynamo": "tbl"}
+    for k, (who, fmt, cfg) in enumerate(steps):
+        path = _file(ctx, "c11s." + ext[fmt])
+        n = src[who]["t"].shape[0]
+        kw = star_kwargs(cfg, n) if fmt == "relion" else dict(cfg)
+        _, err = _quiet(objs[who].to_file, path, fmt, **kw)
+        if err:
+            return ctx.spec("session: writing succeeds", {**inp, "step": k}, False, err, key="session:write-raises", size=size)
+        content = _read(path)
+        sig = (who, fmt, json_key(cfg))
+        if sig in first:
+            ok &= ctx.spec("session: writing the same orientation set again gives the same file", {**inp, "step": k},
+                           content == first[sig], key="session:rewrite-differs:" + fmt, size=size)
+        else:
+            first[sig] = content
+        back, err = _quiet(Orientations.from_file, path)
+        if err:
+            ok &= ctx.spec("session: reading back succeeds", {**inp, "step": k}, False, err, key="session:read-raises:" + fmt, size=size)
+        else:
+            bad = _same_set(src[who], back, fmt)
+            ok &= ctx.spec("session: every write of a long-lived object reads back as the orientation set it was built from",
+                           {**inp, "step": k}, bad is None, bad, key="session:roundtrip:" + fmt, size=size)
+        if not ok:
+            break
+    after = [[_bits(x.translations), _bits(x.rotations), _bits(x.scores), _bits(x.details)] for x in objs]
+    ok &= ctx.spec("session: writing leaves the orientation set unchanged", inp, after == before, key="session:object-changed", size=size)
+    ctx.count("session:steps=" + str(len(steps)))
+    ctx.distinct(("session", _crc(json_key(inp))))
+    return ok
+
+
+def json_key(x):
+    import json
+    return json.dumps(x, sort_keys=True, default=str)
+
+
+def gen_session(rng):
+    steps = []
+    for _ in range(int(rng.integers(3, 8))):
+        fmt = str(rng.choice(["text", "relion", "dynamo"]))
+        if fmt == "relion":
+            cfg = STAR_CFGS[int(rng.integers(0, len(STAR_CFGS)))]
+        elif fmt == "dynamo":
+            cfg = {} if rng.random() < 0.6 else {"sampling_rate": 2.5}
+        else:
+            cfg = {}
+        steps.append([int(rng.integers(0, 2)), fmt, cfg])
+    if rng.random() < 0.7:                    # make sure something is written twice
+        steps.append(list(steps[0]))
+    return steps
 
 # ------------------------------------------------------------------------------------------ source-tied tables
 
@@ -807,9 +1143,17 @@ def replay_input(ctx, inp):
     if fam == "star":
         return check_star(ctx, orient_from_json(inp["orient"]), inp.get("cfg", {}), "replay")
     if fam == "dynamo":
-        return check_tbl(ctx, orient_from_json(inp["orient"]), inp.get("sampling_rate"), "replay")
+        return check_tbl(ctx, orient_from_json(inp["orient"]), inp.get("sampling_rate"), "replay", extra=inp.get("extra"))
     if fam == "windows":
-        return check_windows(ctx, orient_from_json(inp["orient"]), inp["target"], inp["box"], "replay")
+        return check_windows(ctx, orient_from_json(inp["orient"]), inp["target"], inp["box"], "replay", inp.get("call", "tuple"))
+    if fam == "text-permuted":
+        return check_text_permuted(ctx, orient_from_json(inp["orient"]), inp["perm"])
+    if fam == "dispatch":
+        return check_dispatch(ctx, orient_from_json(inp["orient"]), inp["fname"], inp.get("write_format"), inp.get("read_format"))
+    if fam == "session":
+        return check_session(ctx, orient_from_json(inp["orient"]), orient_from_json(inp["orient2"]), inp["steps"])
+    if fam == "copy":
+        return check_copy(ctx, orient_from_json(inp["orient"]))
     if fam == "subset":
         return check_subset(ctx, orient_from_json(inp["orient"]), inp["sel"], inp["kind"], inp.get("container", "array"))
     if fam == "text-foreign":
@@ -862,6 +1206,34 @@ def fixed_cases(ctx):
         check_star(ctx, g, cfg)
     check_tbl(ctx, g)
     check_tbl(ctx, g, 2.5)
+    check_tbl(ctx, g, 4, extra={"name_prefix": "sub", "subtomogram_size": 16})
+    # every documented format name on both sides, every file-name spelling with both formats left out
+    for nm in FORMAT_NAMES:
+        check_dispatch(ctx, g, "picks.dat", nm, nm)
+    for ext in FILE_EXTS:
+        check_dispatch(ctx, g, "picks" + ext, None, None)
+    for nm in OTHER_NAMES:
+        check_dispatch(ctx, g, "picks.tbl", nm, None)
+        check_dispatch(ctx, g, "picks.tbl", None, nm)
+    check_dispatch(ctx, o0, "empty.TBL", None, None)
+    check_dispatch(ctx, o0, "empty.Star", None, None)
+    check_copy(ctx, g)
+    check_copy(ctx, o0)
+    # tables with more rows than 8- / 16-bit counters hold (thorough: more than 10 000 rows through every format)
+    nb = ctx.budget(300, 12000)
+    check_text(ctx, synthetic(nb, 3, 3, 1), shrink=False)
+    check_star(ctx, synthetic(nb, 3, 3, 2), {"name": "tomo.mrc"}, shrink=False)
+    check_tbl(ctx, synthetic(nb, 3, 3, 3), shrink=False)
+    for n, sel in ((300, [0, 255, 256, 299, -1, -300, -256, 128]), (40000, [32767, 32768, 39999, -40000, -32769, 0, 255, 256]),
+                   (70000, [65535, 65536, 69999, -70000, 32768, -1, 1, 65537])):
+        for cont in ("array", "list", "array:int32", "view"):
+            check_subset(ctx, synthetic(n, 3, 3, n), sel, "int", container=cont)
+    for n in (300, 40000):
+        mask = [(i % 257 == 3) or i in (0, 255, 256, n - 1, 32768) for i in range(n)]
+        check_subset(ctx, synthetic(n, 3, 3, n), mask, "bool", container="array")
+
+
+SUBSET_DTYPES = ["array:int8", "array:int16", "array:int32", "array:uint8", "array:uint16", "array:uint32", "array:uint64", "array:intp"]
 
 
 def stream(ctx, rng, scale=1.0, wide=False):
@@ -873,6 +1245,26 @@ def stream(ctx, rng, scale=1.0, wide=False):
         check_text(ctx, gen_orient(rng, n_rows(ctx, rng), d, r, exotic=True))
     for _ in range(nb(600, 6000)):
         check_foreign_text(ctx, *gen_foreign_text(rng))
+    for _ in range(nb(200, 2000)):
+        d = int(rng.choice([3, 3, 2, 1, 4]))
+        r = int(rng.choice([3, 3, 2, 1]))
+        check_text_permuted(ctx, gen_orient(rng, int(rng.choice([0, 1, 2, 5])), d, r, exotic=True), [int(x) for x in rng.permutation(d + r)])
+    for _ in range(nb(200, 1600)):
+        fname = str(rng.choice(FILE_STEMS)) + str(rng.choice(FILE_EXTS))
+        k = rng.random()
+        names = [None] + FORMAT_NAMES
+        if k < 0.45:
+            wf = rf = None
+        elif k < 0.75:
+            wf = rf = names[int(rng.integers(0, 4))]
+        elif k < 0.9:
+            wf, rf = names[int(rng.integers(0, 4))], names[int(rng.integers(0, 4))]
+        else:
+            wf, rf = [(None, str(rng.choice(OTHER_NAMES))), (str(rng.choice(OTHER_NAMES)), None)][int(rng.integers(0, 2))]
+        check_dispatch(ctx, gen_orient(rng, int(rng.choice([0, 1, 2, 4])), 3, 3), fname, wf, rf)
+    for _ in range(nb(60, 500)):
+        check_session(ctx, gen_orient(rng, int(rng.choice([1, 2, 5])), 3, 3), gen_orient(rng, int(rng.choice([0, 1, 3])), 3, 3),
+                      gen_session(rng))
     for _ in range(nb(250, 2000)):
         cfg = STAR_CFGS[int(rng.integers(0, len(STAR_CFGS)))]
         check_star(ctx, gen_orient(rng, n_rows(ctx, rng), 3, 3), cfg)
@@ -880,7 +1272,9 @@ def stream(ctx, rng, scale=1.0, wide=False):
         t, kind = gen_foreign_star(rng)
         check_foreign_star(ctx, t, kind, None if rng.random() < 0.8 else str(rng.choice(["\t", " "])))
     for _ in range(nb(250, 2000)):
-        check_tbl(ctx, gen_orient(rng, n_rows(ctx, rng), 3, 3), None if rng.random() < 0.7 else float(rng.choice([2.5, 13.33, 4])))
+        sr = None if rng.random() < 0.7 else [2.5, 13.33, 4.0, 4][int(rng.integers(0, 4))]
+        extra = None if rng.random() < 0.8 else [{"name_prefix": "sub"}, {"subtomogram_size": 32}, {"name_prefix": "p", "subtomogram_size": 7}][int(rng.integers(0, 3))]
+        check_tbl(ctx, gen_orient(rng, n_rows(ctx, rng), 3, 3), sr, extra=extra)
     for _ in range(nb(300, 3000)):
         check_foreign_tbl(ctx, gen_foreign_tbl(rng))
     # subsetting
@@ -893,14 +1287,23 @@ def stream(ctx, rng, scale=1.0, wide=False):
             sel = [int(x) for x in rng.integers(lo, max(hi, lo + 1), size=k)] if n or lo < hi else []
             if n == 0:
                 sel = [] if rng.random() < 0.7 else [0]
-            check_subset(ctx, o, sel, "int", container=str(rng.choice(["array", "array", "list", "tuple"])))
+            if n and rng.random() < 0.3:      # the boundary indices
+                sel = sel + [n - 1, -n, 0, -1]
+            check_subset(ctx, o, sel, "int", container=str(rng.choice(["array", "array", "list", "tuple", "view", "readonly"] + SUBSET_DTYPES)))
         else:
             m = n if rng.random() < 0.9 else n + int(rng.choice([-1, 1]))
             sel = [bool(x) for x in rng.random(max(m, 0)) < rng.choice([0.0, 0.3, 0.7, 1.0])]
-            check_subset(ctx, o, sel, "bool", container=str(rng.choice(["array", "array", "list", "tuple"])))
+            check_subset(ctx, o, sel, "bool", container=str(rng.choice(["array", "array", "list", "tuple", "view", "readonly"])))
+    for _ in range(nb(60, 400)):
+        check_copy(ctx, gen_orient(rng, int(rng.choice([0, 1, 2, 7])), int(rng.choice([2, 3])), int(rng.choice([1, 3]))))
     # windows
+    calls = list(WINDOW_CALLS)
     for _ in range(nb(1000, 8000)):
-        check_windows(ctx, *gen_window_case(rng, ctx, wide))
+        check_windows(ctx, *gen_window_case(rng, ctx, wide), call=calls[int(rng.integers(0, len(calls)))] if rng.random() < 0.4 else "tuple")
+    for _ in range(nb(250, 2000)):
+        check_windows(ctx, *gen_window_case(rng, ctx, wide, scale="big"), call=calls[int(rng.integers(0, len(calls)))])
+    for _ in range(nb(80, 600)):
+        check_windows(ctx, *gen_window_case(rng, ctx, wide, scale="huge"), call=calls[int(rng.integers(0, len(calls)))])
 
 
 def windows_exhaustive(ctx):
